@@ -88,6 +88,12 @@ Proof.
   inversion Hstep. subst. apply acc_weight_keys. exact Hacc.
 Qed.
 
+(* ---------------- the stored edges of a coherent single-edge state have distinct (u, v) ---------------- *)
+Lemma level_graph_keys : forall g : lgraph,
+  WF Nat.eqb Nat.ltb g -> multi (sp g) = false ->
+  NoDup (map (fun e : ledge => (eu e, ev e)) (get_all_edges g)).
+Proof. intros g W Hm. exact (stored_distinct Nat.eqb Nat.ltb Nat.eqb_eq g W Hm). Qed.
+
 Record oracle_perm {OS : Type} (h : hash_oracle OS) : Prop := mkOP {
   op_cand : forall o l, Permutation (fst (ho_cand h o l)) l;
   op_nbr : forall o l, Permutation (fst (ho_nbr h o l)) l;
@@ -210,11 +216,6 @@ Section OrdOk.
     rewrite (sort_edges_perm (get_all_edges g) it (Permutation_sym P) Hnd).
     match goal with |- context [ofold ?f ?l ?a] => destruct (ofold f l a) end; reflexivity.
   Qed.
-
-  Lemma level_graph_keys : forall g : lgraph,
-    WF Nat.eqb Nat.ltb g -> multi (sp g) = false ->
-    NoDup (map (fun e : ledge => (eu e, ev e)) (get_all_edges g)).
-  Proof. intros g W Hm. exact (stored_distinct Nat.eqb Nat.ltb Nat.eqb_eq g W Hm). Qed.
 
   (* ---------------- the level loop ---------------- *)
   Lemma level_loop_ord_eq : forall fuel o sf weighted res thr perms m (gk : lgraph) partition inner md acc tie,
